@@ -171,6 +171,10 @@ class MinimalInlineReader:
         return self.segyfile.bin[segyio.BinField.Format]
 
     def self_test(self):
+        if self.segyfile.sorting != segyio.TraceSortingFormat.INLINE_SORTING:
+            # One read per inline needs the traces of an inline to be contiguous in the file. (On a crossline-sorted
+            # file the comparison below is blind to it whenever the first lines hold equal samples, e.g. a dead edge)
+            return False
         headers, array = self.read_line(0)
         array_equal = np.array_equal(self.segyfile.iline[self.segyfile.ilines[0]], array)
         headers_equal = all([h1 == h2 for h1, h2 in zip(headers, self.segyfile.header[0: self.n_xl])])
